@@ -2,7 +2,7 @@
    event stream -> pairing machine -> table evolution -> lines, compared with the implementation's lines. *)
 From Coq Require Import String NArith List Bool.
 From Kd Require Import theories.Base theories.Harness theories.Printers theories.Container theories.Pairing
-  theories.PairingCases theories.Format.
+  theories.PairingCases theories.Format theories.FormatLog.
 Import ListNotations.
 Open Scope N_scope.
 
@@ -41,4 +41,13 @@ Definition hcase := (list bool * list (N * N * list N) * N * N * list (N * optio
 Definition hcheck (c : hcase) : bool :=
   match c with
   | (bits, tm, ts, tid, fs, obs) => leqb (callstack_line (cfg_of bits) (set_thread_map tm ([], [])) ts tid fs) obs
+  end.
+
+(* log lines: (switches, colour, thread map, text of the date, tid, names-a-process, message, observed line) *)
+Definition lcase := (list bool * bool * list (N * N * list N) * list N * N * bool * list N * list N)%type.
+Definition lcheck (c : lcase) : bool :=
+  match c with
+  | (bits, color, tm, tstext, tid, hp, msg, obs) =>
+      leqb (log_line (cfg_of bits) color (set_thread_map tm ([], [])) tstext tid hp msg) obs
+      && (negb color || leqb (strip_ansi obs) (log_line (cfg_of bits) false (set_thread_map tm ([], [])) tstext tid hp msg))
   end.
